@@ -83,7 +83,8 @@ def _mk_slice(lo, hi, step):
 
 def _mk_call(func, args, kwargs):
     # d.get(k)  ==  d[k]   (one-argument form only)
-    if func[0] == 'attr' and func[2] == 'get' and len(args) == 1 and not kwargs:
+    if func[0] == 'attr' and func[2] == 'get' and len(args) == 1 and not kwargs \
+            and args[0][0] != 'starred':
         return ('sub', func[1], args[0])
     # x.transpose() == np.transpose(x)
     if func[0] == 'attr' and func[2] == 'transpose' and not args and not kwargs:
